@@ -7,6 +7,7 @@
      D e kind dp ; ep      search_decl (dp/ep = `f l1 c1 l2 c2` or -)
      Q C f l c             item_at_cursor query        -> `N` | `S f l1 c1 l2 c2 e`
      Q A e                 find_all_references query   -> `L f:l1:c1:l2:c2 ...`
+     Q D e                 AnyEnt::declaration()       -> `D id`
      K                     well-formedness             -> `K <wf_forest_fast> <wf_forest | ->`
      E                     end of the project          -> `E`
    One output line per Q/K/E line. *)
@@ -123,6 +124,8 @@ let () =
        | Some (p, e) ->
          print_string "S "; print_string (show_srcpos " " p); print_char ' ';
          print_endline (string_of_int (int_of_n (ent_id e))))
+    | ["Q"; "D"; e] ->
+      print_endline ("D " ^ string_of_int (int_of_n (ent_id (declaration (ent_of (ios e))))))
     | ["Q"; "A"; e] ->
       let l = Searchers.find_all_references (get_forest ()) (ent_of (ios e)) in
       print_char 'L';
